@@ -50,6 +50,12 @@ def param_roles_synthesize(p):
             a = eb.op(t["args"][0])
             if a[0] == "arg":
                 roles[a[1]] = "spectrum"
+    for bb, t in b.calls():
+        c = t["callee"]
+        if c["k"] == "fndef" and cm.callee_name(c) == "vocoder::excitation::Excitation::get":
+            a = eb.at(bb).op(t["args"][1])
+            if a[0] == "arg":
+                roles[a[1]] = "lpf"
     for cb in p.nested(VS):
         ceb = ExprBuilder(cb)
         for bb, t in cb.calls():
